@@ -68,6 +68,7 @@ class Profile(object):
         self.top_tags = True
         self.wide_additions = True
         self.via_ref_floor = True
+        self.ref_constraint_rate = 12
         for k, v in kw.items():
             if not hasattr(self, k):
                 raise AttributeError(k)
@@ -313,7 +314,7 @@ class _G(object):
                 mod.imports[amod].append(name)
         t = Ty('REF', ref=name)
         P = self.p
-        if P.ref_constraints and P.constraints and self.chance(12):
+        if P.ref_constraints and P.constraints and self.chance(P.ref_constraint_rate):
             # narrow an unconstrained base through the reference
             target = self.lookup_avail(amod, name)
             if target is not None and target.kind == 'INTEGER' and target.rng is None:
